@@ -61,7 +61,7 @@ def run():
             keep = []
             for c in cfgs:
                 plain = not c['kw'] and not c.get('cache')
-                if plain or (c['ci'] + chk.seed) % 3 == 0:
+                if plain or c.get('always') or (c['ci'] + chk.seed) % 3 == 0:
                     keep.append(c)
             if not os.environ.get('C01_ALLCFG'):
                 cfgs = keep
